@@ -160,6 +160,9 @@ def isListOrTuple : Ty → Bool
 def isMap : Ty → Bool
   | .map _ => true
   | _ => false
+def isTuple : Ty → Bool
+  | .tuple _ => true
+  | _ => false
 def isObject : Ty → Bool
   | .object _ _ _ => true
   | _ => false
@@ -177,10 +180,15 @@ def apply (s : PathStep) (val : Value) : Res Value :=
         | _ => .err "key value not number or string"
       match kindOk with
       | .ok () =>
+        if key.isNull then .err "key value is null"
+        else
         match val.hasIndex key with
         | .ok has =>
           let has := has.unmark
-          if !has.isKnown then (elementType val.ty).map Value.unknown
+          if !has.isKnown then
+            -- an unknown index into a tuple: no particular element type
+            if isTuple val.ty then .ok Value.dynVal
+            else (elementType val.ty).map Value.unknown
           else if !has.isTrue then .err "value does not have given index key"
           else val.index key
         | .err c => .err c
